@@ -321,9 +321,18 @@ def mon_delete(world, ev, before, rec, after):
         return out
     if name in after['refs']:
         out.append({'what': 'delete succeeded but the branch is still there', 'key': 'delete_success_branch_left'})
+    # the archive tag must point at the tip the branch had BEFORE the job, not merely exist
     tagged = [t for t in archive_tags_of(name) if after['tags'].get(t) == b[name]]
     if not tagged:
-        out.append({'what': 'no archive tag on the deleted tip', 'key': 'delete_no_archive_tag'})
+        elsewhere = {t: after['tags'][t] for t in archive_tags_of(name)
+                     if t in after['tags'] and t not in before['tags']}
+        if elsewhere:
+            where = {t: sorted(n for n, s in b.items() if s == sha) for t, sha in elsewhere.items()}
+            out.append({'what': 'the archive tag was put on another commit than the deleted tip',
+                        'deleted_tip': b[name], 'tag': elsewhere, 'that_commit_was_the_tip_of': where,
+                        'key': 'delete_archive_tag_on_wrong_commit'})
+        else:
+            out.append({'what': 'no archive tag on the deleted tip', 'key': 'delete_no_archive_tag'})
     q = queued_on(b, d)
     if q:
         out.append({'what': 'branch deleted while pull requests are queued on it', 'prs': q,
